@@ -101,6 +101,17 @@ func runC18(c *an.Ctx) {
 			fmt.Sprintf("the arm for %q emits %q: the character itself must remain in the output", a.r, a.text))
 	}
 
+	// bulk copies that bypass the switch (all functions of the file that declares the quoting function)
+	var quoteFns []*ssa.Function
+	qfile := p.SSA.Fset.Position(quote.Pos()).Filename
+	for _, fn := range p.FuncsOf(pkgCore) {
+		if fn.Pos().IsValid() && p.SSA.Fset.Position(fn.Pos()).Filename == qfile {
+			quoteFns = append(quoteFns, fn)
+		}
+	}
+	c.Floor("H1", "functions scanned for verbatim copies of the input", len(quoteFns), 2)
+	c18BulkCopies(c, quoteFns)
+
 	// ---------------- H2 ----------------
 	t := an.NewTaint(0, nil)
 	t.NoKeyFlow = true
